@@ -77,6 +77,13 @@ type FileWrite struct {
 	// KeepOld additionally keeps the old inode alive through a hard link, as a backup would
 	Rename  bool `json:"rename,omitempty"`
 	KeepOld bool `json:"keep_old,omitempty"`
+	// MtimeAgoS (with Rename): the new file carries a modification time this many seconds in the past, as a
+	// restored backup or an rsync -t / cp -p deployment does
+	MtimeAgoS int `json:"mtime_ago_s,omitempty"`
+	// EditAfterUs/Content2 (with Rename): this many microseconds after the rename the new file is edited in
+	// place (single pwrite of Content2) - a second change hard on the heels of the replacement
+	EditAfterUs int    `json:"edit_after_us,omitempty"`
+	Content2    string `json:"content2,omitempty"`
 	// Repeat/IntervalUs (bursts only): write the content Repeat more times, IntervalUs apart, while
 	// the burst is in flight - a refresh storm
 	Repeat int `json:"repeat,omitempty"`
@@ -475,8 +482,18 @@ func chainChild() {
 				tmp := path + ".tmp"
 				if err := os.WriteFile(tmp, []byte(rq.Write.Content), 0o644); err != nil {
 					rr.WriteErr = err.Error()
+				} else if rq.Write.MtimeAgoS > 0 && os.Chtimes(tmp, time.Now(), time.Now().Add(-time.Duration(rq.Write.MtimeAgoS)*time.Second)) != nil {
+					rr.WriteErr = "chtimes failed"
 				} else if err := os.Rename(tmp, path); err != nil {
 					rr.WriteErr = err.Error()
+				} else if rq.Write.Content2 != "" {
+					t0 := time.Now()
+					for time.Since(t0) < time.Duration(rq.Write.EditAfterUs)*time.Microsecond {
+					}
+					if f, err := os.OpenFile(path, os.O_WRONLY, 0); err == nil {
+						f.WriteAt([]byte(rq.Write.Content2), 0)
+						f.Close()
+					}
 				}
 			} else if rq.Write.Create {
 				if err := os.WriteFile(path, []byte(rq.Write.Content), 0o644); err != nil {
